@@ -883,7 +883,140 @@ var delayCases = []delayCase{
 
 const delayInterval = 1500 * time.Millisecond
 
+// hung monitor: the connection is accepted but IsAlive is never answered (a silent listener, or the relay holding every
+// answer from the start), RPC timeout = 200 polling intervals.  The detector's first poll therefore stays in flight for
+// 40 s; every ReadValue issued meanwhile has to come back (aborted) after about one interval.  Judged generously:
+// it must return within 10 intervals (2 s).
+const (
+	hungInterval = 200 * time.Millisecond
+	hungTimeout  = 200 * hungInterval
+	hungBound    = 10 * hungInterval
+)
+
+func runHung(dc delayCase, wk *worker) (out string, fail *hres.Viol) {
+	iface := distsys.NewMPCalContextWithoutArchetype().IFace()
+	a := newArch(0)
+	var target string
+	var closers []func()
+	defer func() {
+		for _, f := range closers {
+			f()
+		}
+	}()
+	switch dc.Hung {
+	case "silent-listener":
+		l, err := net.Listen("tcp", wk.ip+":0")
+		if err != nil {
+			envTimeouts.Add(1)
+			return "discarded", nil
+		}
+		target = l.Addr().String()
+		var mu sync.Mutex
+		var held []net.Conn
+		go func() {
+			for {
+				c, err := l.Accept()
+				if err != nil {
+					return
+				}
+				mu.Lock()
+				held = append(held, c)
+				mu.Unlock()
+			}
+		}()
+		closers = append(closers, func() {
+			l.Close()
+			mu.Lock()
+			for _, c := range held {
+				c.Close()
+			}
+			mu.Unlock()
+		})
+	default: // relay-holds-answers: a real monitor with the archetype running, behind a relay that lets no answer through
+		addr := wk.freeAddr()
+		mon := resources.NewMonitor(addr)
+		go func() {
+			defer func() { recover() }()
+			_ = mon.ListenAndServe()
+		}()
+		dl := time.Now().Add(envCap)
+		for {
+			conn, err := net.DialTimeout("tcp", addr, time.Second)
+			if err == nil {
+				conn.Close()
+				break
+			}
+			if time.Now().After(dl) {
+				envTimeouts.Add(1)
+				return "discarded", nil
+			}
+			time.Sleep(time.Millisecond)
+		}
+		go func() { defer func() { recover() }(); _ = mon.RunArchetype(a.ctx) }()
+		select {
+		case <-a.started:
+		case <-time.After(envCap):
+			envTimeouts.Add(1)
+			return "discarded", nil
+		}
+		r, err := newRelay(wk.ip+":0", addr, 5*time.Millisecond)
+		if err != nil {
+			envTimeouts.Add(1)
+			return "discarded", nil
+		}
+		r.stall()
+		target = r.addr
+		closers = append(closers, func() {
+			r.close()
+			select {
+			case a.cmd <- endNormal:
+			default:
+			}
+			go mon.Close()
+		})
+	}
+	coll := resources.NewFailureDetector(func(tla.Value) string { return target },
+		resources.WithFailureDetectorPullInterval(hungInterval), resources.WithFailureDetectorTimeout(hungTimeout))
+	closers = append(closers, func() { go coll.Close() }) // runs first: LIFO not needed, Close is asynchronous and the hung connections are cut right after
+	res, _ := coll.Index(iface, a.id)
+	var obs []string
+	for k := 0; k < 4; k++ {
+		type rr struct {
+			v   tla.Value
+			err error
+			el  time.Duration
+		}
+		ch := make(chan rr, 1)
+		st := resources.VerifFDState(res)
+		t0 := time.Now()
+		go func() {
+			v, err := res.ReadValue(iface)
+			ch <- rr{v, err, time.Since(t0)}
+		}()
+		select {
+		case r := <-ch:
+			ans := "abort"
+			if r.err == nil {
+				ans = r.v.String()
+			}
+			obs = append(obs, fmt.Sprintf("%s:%s:%s", st, ans, r.el.Round(100*time.Millisecond)))
+			if st == "uninitialized" && r.err != distsys.ErrCriticalSectionAborted && resources.VerifFDState(res) == "uninitialized" {
+				return "", &hres.Viol{Key: "delay/uninitialised-read-does-not-abort", What: fmt.Sprintf("ReadValue of an uninitialised detector returned (%v,%v)", r.v, r.err), Replay: map[string]any{"delay": dc}}
+			}
+		case <-time.After(hungBound):
+			return "", &hres.Viol{Key: "delay/uninitialised-read-over-one-interval/monitor-hung",
+				What: fmt.Sprintf("ReadValue of a detector in state %s whose first poll is in flight against a monitor that accepts but never answers (%s) has not returned after %v = %d polling intervals of %v (RPC timeout %v): reading lasts as long as the first poll",
+					st, dc.Name, hungBound, int(hungBound/hungInterval), hungInterval, hungTimeout),
+				Replay: map[string]any{"delay": dc}}
+		}
+	}
+	return dc.Name + " " + strings.Join(obs, " "), nil
+}
+
 func runDelay(dc delayCase, wk *worker) (out string, fail *hres.Viol) {
+	if dc.Hung != "" {
+		return runHung(dc, wk)
+	}
 	iface := distsys.NewMPCalContextWithoutArchetype().IFace()
 	addr := wk.freeAddr()
 	mon := resources.NewMonitor(addr)
